@@ -366,6 +366,8 @@ def analyse(obs: Obs, prog):
     if okp:
         lst = rp.ret[1][2][0]
         okp = is_t(lst, "list") and len(lst[1]) == 2 and mentions(lst[1][0], ("leaf", mk_proj(P("args"), 0))) and lst[1][1] == ("leaf", mk_proj(P("ret"), 1))
+        # the history takes the dtype JAX promotion gives it (an integer-typed initial value with a float-producing kernel must not truncate the history)
+        okp = okp and not dict(rp.ret[1][3]).get("dtype") and not any(is_mcall(x, "astype") for x in subterms(rp.ret[1]))
     obs.add({"C12", "C16"}, "COMPOSE", "prepend_initial_acc", okp, derived=rp.ret, expected="tree_map(concatenate([init[newaxis], stacked]), args[0], ret[1])", where=f"{mm.rel}:{pf.lineno}")
     is_ppa = lambda t: is_t(t, "global") and t[1].endswith("prepend_initial_acc")
     ident_pre = lambda t: ev.closure_of(t) is not None and ev.apply(t, [("star", P("$a"))], module=m) in (P("$a"), ("tuple", (("star", P("$a")),)))
